@@ -4,6 +4,7 @@
 //   ns <container> <sizeof T> <alignof T> |  | req=<largest node request> const=<X_node_size<T>> |  | -
 //   ct <kind> <op> <i> <j> |  | bind=<allocator of each slot> size=<sizes> |  | -
 //   cteq <kind> same=<a==copy of a> diff=<a==b> |  | ...
+#include <algorithm>
 #include <cstdio>
 #include <cstring>
 #include <map>
@@ -13,6 +14,7 @@
 #include "proto.hpp"
 #include "container.hpp"
 #include "smart_ptr.hpp"
+#include "memory_pool.hpp"
 
 using namespace foonathan::memory;
 using namespace verif;
@@ -624,6 +626,97 @@ static void d23_case()
     LEDGER.clear();
 }
 
+//=== containers on a real memory_pool (the other half of C10: "a pool created with X_node_size<T> can serve X<T>") ===//
+// Several containers share one pool; their contents are compared with the same operations on std::allocator containers after
+// every step, so memory handed out twice or released with the wrong extent shows as a difference (or kills the run).
+template <class T, class Pool>
+static void pool_containers(const char* what, std::size_t node_size, Rng& g, long nops)
+{
+    Pool pool(node_size, node_size * 40 + 64);
+    {
+        list<T, Pool>                lst(pool);
+        set<T, Pool>                 st(pool);
+        unordered_set<T, Pool>       us(pool);
+        vector<unsigned, Pool>       vec(pool);
+        std::list<T>                 tl;
+        std::set<T>                  ts;
+        std::unordered_set<T>        tu;
+        std::vector<unsigned>        tv;
+        auto                         same = [&]
+        {
+            bool ok = lst.size() == tl.size() && std::equal(lst.begin(), lst.end(), tl.begin()) && st.size() == ts.size()
+                      && std::equal(st.begin(), st.end(), ts.begin()) && us.size() == tu.size() && vec.size() == tv.size()
+                      && std::equal(vec.begin(), vec.end(), tv.begin());
+            for (auto& x : tu)
+                ok = ok && us.count(x) == 1;
+            return ok;
+        };
+        for (long n = 0; n < nops && failures.empty(); ++n)
+        {
+            unsigned k = unsigned(g.below(100)), v = unsigned(g.below(200));
+            if (k < 20)
+            {
+                lst.push_back(T(v));
+                tl.push_back(T(v));
+            }
+            else if (k < 35)
+            {
+                st.insert(T(v));
+                ts.insert(T(v));
+            }
+            else if (k < 55)
+            {
+                us.insert(T(v));
+                tu.insert(T(v));
+            }
+            else if (k < 75)
+            { // the vector's buffer and the bucket array are arrays of elements smaller than a node
+                if (vec.size() < 200)
+                {
+                    vec.push_back(v);
+                    tv.push_back(v);
+                }
+            }
+            else if (k < 80 && !tl.empty())
+            {
+                lst.pop_front();
+                tl.pop_front();
+            }
+            else if (k < 85 && !ts.empty())
+            {
+                st.erase(*ts.begin());
+                ts.erase(ts.begin());
+            }
+            else if (k < 90 && !tu.empty())
+            {
+                T x = *tu.begin();
+                us.erase(x);
+                tu.erase(x);
+            }
+            else if (k < 93)
+            {
+                vec.clear();
+                vec.shrink_to_fit();
+                tv.clear();
+            }
+            else if (k < 96)
+            {
+                us.rehash(us.bucket_count() * 2 + 1);
+            }
+            else
+            {
+                us.clear();
+                tu.clear();
+            }
+            ++n_ops;
+            if (!same())
+                fail(fmt("%s: containers sharing a memory_pool (node size %zu) differ from the same operations on std::allocator containers after step %ld",
+                         what, node_size, n));
+        }
+    }
+    std::printf("cp %s node=%zu |  | %s |  | -\n", what, node_size, failures.empty() ? "ok" : "FAILED");
+}
+
 int main(int argc, char** argv)
 {
     bool               thorough = argc > 1 && std::atoi(argv[1]) != 0;
@@ -662,6 +755,18 @@ int main(int argc, char** argv)
     run_kind<KVec>("vector", g, nops);
     run_kind<KDeque>("deque", g, nops);
     run_kind<KString>("string", g, nops);
+#ifndef VERIF_SHARED_ALLOC
+    { // real pools: node size = the largest of the containers' node size constants for the element type
+        using T8 = El<8, 8>;
+        using T24 = El<24, 8>;
+        using P = memory_pool<array_pool>;
+        std::size_t n8 = std::max({list_node_size<T8>::value, set_node_size<T8>::value, unordered_set_node_size<T8>::value});
+        std::size_t n24 = std::max({list_node_size<T24>::value, set_node_size<T24>::value, unordered_set_node_size<T24>::value});
+        pool_containers<T8, P>("pool-containers-8", n8, g, thorough ? 3000 : 600);
+        pool_containers<T24, P>("pool-containers-24", n24, g, thorough ? 3000 : 600);
+        pool_containers<T8, P>("pool-containers-8-in-64", 64, g, thorough ? 3000 : 600);
+    }
+#endif
     d23_case();
     if (!LEDGER.empty())
         fail(fmt("%zu blocks never released", LEDGER.size()));
